@@ -539,6 +539,7 @@ class IterMesh(MeshBase):
             q = self._qpoints[self._q_count]
             self._dynamical_matrix.run(q)
             dm = self._dynamical_matrix.dynamical_matrix
+            eigenvectors = None
             if self._with_eigenvectors:
                 eigvals, eigenvectors = np.linalg.eigh(dm)
                 eigenvalues = eigvals.real
